@@ -48,10 +48,10 @@ func c04Internal(c *ctx) {
 				for _, b := range cs.levels {
 					want := c04treePath(cs, a.name, b.name)
 					for k := 0; k < 50; k++ {
-						got := d.VerifBuildPrivChangeMap(a.name, b.name)
+						got := c04safePath(d, a.name, b.name)
 						runs++
 						if strings.Join(got, "+") != strings.Join(want, "+") {
-							res.Fail("oracle", cs.line, fmt.Sprintf("buildPrivChangeMap(%s,%s) = %v, tree path %v (run %d)", a.name, b.name, got, want, k), "internal-wrong-path")
+							res.Fail("correspondence", cs.line, fmt.Sprintf("buildPrivChangeMap(%s,%s) = %v, tree path %v (run %d)", a.name, b.name, got, want, k), "internal-wrong-path")
 							break
 						}
 					}
@@ -69,14 +69,14 @@ func c04Internal(c *ctx) {
 						var act, next string
 						for k := 0; k < 8; k++ {
 							d.CurrentPriv = cache
-							a2, n2, err := d.VerifProcessAcquirePriv(b.name, a.prompt)
+							a2, n2, err := c04safeProc(d, b.name, a.prompt)
 							runs++
 							if err != nil {
 								a2, n2 = "error", errClass(err)
 							}
 							got := a2 + " " + c04hexS(n2) + " " + c04hexS(d.CurrentPriv)
 							if k > 0 && got != act+" "+next {
-								res.Fail("oracle", cs.line, fmt.Sprintf("processAcquirePriv(%s, prompt of %s) differs between runs: %s vs %s %s", b.name, a.name, got, act, next), "internal-order-dependent")
+								res.Fail("correspondence", cs.line, fmt.Sprintf("processAcquirePriv(%s, prompt of %s) differs between runs: %s vs %s %s", b.name, a.name, got, act, next), "internal-order-dependent")
 								break
 							}
 							act, next = a2, c04hexS(n2)+" "+c04hexS(d.CurrentPriv)
@@ -96,4 +96,23 @@ func c04Internal(c *ctx) {
 	}
 	res.Distribution["internal:runs"] = runs
 	res.Distribution["internal:model-requests"] = len(lines)
+}
+
+// a panic inside the exported helpers must not take the harness down: it is reported as a result
+func c04safePath(d *network.Driver, a, b string) (p []string) {
+	defer func() {
+		if r := recover(); r != nil {
+			p = []string{"panic"}
+		}
+	}()
+	return d.VerifBuildPrivChangeMap(a, b)
+}
+
+func c04safeProc(d *network.Driver, tgt, prompt string) (act, next string, err error) {
+	defer func() {
+		if r := recover(); r != nil {
+			act, next, err = "panic", "", nil
+		}
+	}()
+	return d.VerifProcessAcquirePriv(tgt, prompt)
 }
